@@ -8,7 +8,7 @@ use serde_json::{json, Value};
 use std::collections::HashMap;
 use std::io::BufRead;
 
-const LIM: usize = 100_000;
+const LIM: usize = 4096;
 type ValFn<'f, T> = &'f dyn Fn(&T) -> i32;
 
 fn pvj<P: PT, T>(ctx: &Ctx, x: Option<(&P, &T)>, val: ValFn<T>) -> Value {
